@@ -59,25 +59,51 @@ class Fresh:
         return Sourcefile.from_source(self.text)
 
 
-_LOCUS = {'Allocation': 'alloc', 'Deallocation': 'alloc', 'CallStatement': 'call', 'VariableDeclaration': 'spec',
-          'ProcedureDeclaration': 'spec', 'Import': 'spec', 'spec': 'spec', 'contains': 'contains'}
-
-
 def issue_key(name, issue):
-    """<entry>:<kind>:<class>:<locus>; the locus is a coarse class of the node the symbol sits in"""
+    """
+    <entry>:<kind>:<class>.  Classes are deliberately coarse so that keys are stable over seeds:
+    scope: unscoped | other-unit | stale-copy-of-unit | stale-copy-of-ancestor | stale-scoped-node (the scope is a dead
+    weak reference or an Associate / TypeDef node that is no longer part of the unit); chain: <Node>-parent-<state>;
+    undeclared: var | callee | typeattr | member
+    """
     parts = issue['key'].split(':')
-    if issue['kind'] in ('scope', 'undeclared') and len(parts) >= 3:
-        where = parts[-1]
-        if '.type.' in where:
-            loc = 'typeattr'
-        elif where.startswith('Associate'):
-            loc = 'associate'
-        elif where.startswith('TypeDef'):
-            loc = 'typedef'
-        else:
-            loc = _LOCUS.get(where, 'body')
-        return f"{name}:{':'.join(parts[:-1])}:{loc}"
+    if issue['kind'] == 'scope':
+        cls = parts[1]
+        if cls == 'dead-weakref' or cls.startswith('detached-'):
+            cls = 'stale-scoped-node'
+        return f'{name}:scope:{cls}'
+    if issue['kind'] == 'undeclared':
+        role = parts[1]
+        if role == 'parent':
+            role = 'var'
+        return f'{name}:undeclared:{role}'
     return f"{name}:{issue['key']}"
+
+
+_COMPILE_CLASSES = [
+    (r'has no IMPLICIT type', 'no-implicit-type'),
+    (r'Explicit array shape at .* must be constant of INTEGER type', 'shape-uses-undeclared-or-later-declared-name'),
+    (r'Missing kind-parameter', 'kind-suffix-is-expression'),
+    (r'Rank mismatch|Incompatible ranks', 'rank-mismatch'),
+    (r'Type mismatch', 'type-mismatch'),
+    (r'Cannot open module file', 'module-file-missing'),
+    (r'Expected association', 'empty-associate'),
+    (r'Unclassifiable statement', 'unclassifiable-statement'),
+    (r'Syntax error', 'syntax-error'),
+    (r'is not a member of', 'not-a-member'),
+    (r'already has basic type|already declared|Duplicate', 'duplicate-declaration'),
+    (r'More actual than formal arguments|Missing actual argument|Keyword argument', 'argument-list-mismatch'),
+    (r'No such file or directory', 'include-file-missing'),
+]
+
+
+def compile_class(detail):
+    m = re.search(r'(?:Fatal )?Error: (.{0,200})', detail or '')
+    msg = m.group(1) if m else (detail or '')
+    for rx, cls in _COMPILE_CLASSES:
+        if re.search(rx, msg):
+            return cls
+    return wf.norm_compile_error(detail)
 
 
 def split_kmod(text):
@@ -194,7 +220,9 @@ class Evaluator:
                     m = re.search(r'>>>(.*)', why)
                     add(f'{entry.name}:reparse:{classify_syntax(why)}', why, {'transformed': excerpt(text, why)})
                 else:
-                    add(f'{entry.name}:compile:{wf.norm_compile_error(why)}', why, {'transformed': excerpt(text, why)})
+                    cc = compile_class(why)
+                    if not (cc == 'no-implicit-type' and any(':undeclared:' in k for k in viol)):
+                        add(f'{entry.name}:compile:{cc}', why, {'transformed': excerpt(text, why)})
         out['violations'] = list(viol.values())
         return out
 
@@ -211,8 +239,10 @@ def classify_syntax(why):
         return 'bracketed-range-in-declaration'
     if re.search(r'^\s*ASSOCIATE\s*\(\s*\)', line, re.I):
         return 'empty-associate'
+    if re.search(r'\(\s*[^()]*\(\s*:\s*\)|\w\([^()]*\+[^()]*:[^()]*\)', line):
+        return 'offset-added-to-section'
     t = re.search(r'(\w+Error)', why)
-    return (t.group(1) if t else 'error') + ':' + re.sub(r'[^A-Za-z]+', '-', line.strip())[:24]
+    return 'other-' + (t.group(1) if t else 'error')
 
 
 def excerpt(text, why, ctx=3):
@@ -341,8 +371,9 @@ def run_scheduler(entry, opts, wc, rng, wd, counters, drhook=False):
             elif not okd:
                 fn = re.match(r'([\w.]+):', det)
                 tx = dict(texts).get(fn.group(1)) if fn else None
-                add(f'{entry.name}:compile:{wf.norm_compile_error(det)}', det,
-                    {'transformed': excerpt(tx, det) if tx else None})
+                cc = compile_class(det)
+                if not (cc == 'no-implicit-type' and any(':undeclared:' in k for k in viol)):
+                    add(f'{entry.name}:compile:{cc}', det, {'transformed': excerpt(tx, det) if tx else None})
     out['violations'] = list(viol.values())
     out['after'] = after
     return out
